@@ -465,6 +465,9 @@ JoinSetsLong == {LongJoin, LongJoinNoise, LongJoinEmpty}
 \* 120 joined lines, three keys interleaved irregularly (partners of one key are scattered; an index built by sorting must be stable), some non-rows
 LongJoinMixed == [i \in 1..120 |-> IF i % 13 = 0 THEN Garbage ELSE IF (i * i) % 7 \in {0, 1} THEN KV(A, IntV(i)) ELSE IF (i * i) % 7 = 2 THEN KV(B, IntV(i)) ELSE KV(TextV(<<99>>), IntV(i))]
 JoinSetsMixed == {LongJoinMixed}
+\* a file that starts with a byte order mark: its first line keeps it, in batch mode as in follow mode
+LinesBom == {BomPre, KV(A, IntV(2)), Garbage}
+BomMenu == CoreMenu \cup {Sel(<<P(Col("input"), ""), P(K, "key")>>, NoE, FALSE, NoLimit, "none"), Sel(<<P(Call("length", <<Col("input")>>), "n")>>, NoE, TRUE, NoLimit, "none")}
 Lines3 == {KV(A, IntV(1)), KV(B, IntV(2)), KV(Null, IntV(0)), KV(A, Null), Garbage}
 LinesJ == {KV(A, IntV(1)), KV(B, IntV(2)), KV(Null, IntV(1))}
 JoinSets == {<<KV(A, IntV(5)), KV(A, IntV(5)), KV(B, IntV(5))>>, <<>>, <<KV(A, IntV(5))>>, <<KV(A, IntV(0)), KV(A, IntV(5))>>, <<KV(B, IntV(5)), KV(A, IntV(5)), KV(A, IntV(6))>>, <<KV(A, IntV(5)), KV(A, IntV(0)), KV(Null, IntV(9))>>, <<KV(B, IntV(1)), Garbage, KV(A, IntV(3))>>}
